@@ -204,21 +204,6 @@ class Arms:
         return res
 
 
-def normalise(trace):
-    """merge adjacent cursor moves of one kind and adjacent Back pushes"""
-    out = []
-    for e in trace:
-        if out and e[0] in ("skip", "fwd", "back") and out[-1][0] == e[0]:
-            out[-1] = (e[0], out[-1][1] + e[1])
-            continue
-        if out and e[0] == "push" and out[-1][0] == "push" and _cs(e[1])[0] == "Back" and _cs(out[-1][1])[0] == "Back":
-            out[-1] = ("push", Adt("CallStack", [_cs(out[-1][1])[1] + _cs(e[1])[1]], "Back"))
-            continue
-        out.append(e)
-    # moves by a syntactic zero disappear
-    return [e for e in out if not (e[0] in ("skip", "fwd", "back", "copy") and z3.is_bv_value(z3.simplify(e[1])) and z3.simplify(e[1]).as_long() == 0)]
-
-
 def _cs(item):
     """(variant, payload) of a CallStack entry"""
     if isinstance(item, Adt) and item.name == "CallStack":
@@ -229,36 +214,81 @@ def _cs(item):
     raise Unsupported("call-stack entry %r" % (item,))
 
 
-def shape(trace):
-    s = []
+def summarise(trace):
+    """The effect of a sequence of micro-operations, independent of how cursor moves are split or
+    interleaved: every write / copy / peek / frame operation with the (relative) read and write
+    cursor positions at which it happens, the final cursor positions per frame (what the children,
+    which run after the arm, will see), and the entries pushed on the call stack with adjacent
+    `Back`s merged."""
+    rs, ws = [C(0)], [C(0)]
+    events, stack = [], []
     for e in trace:
-        if e[0] == "push":
-            v, p = _cs(e[1])
-            s.append("push:" + v + (":" + p.data["name"] if (v == "Goto" and isinstance(p, Opaque)) else ""))
-        elif e[0] == "write_bit":
-            s.append("write_bit")
-        elif e[0] in ("write_bytes", "write_value"):
-            s.append(e[0] + ":" + repr(e[1]))
+        k = e[0]
+        if k == "skip":
+            ws[-1] = ws[-1] + e[1]
+        elif k == "fwd":
+            rs[-1] = rs[-1] + e[1]
+        elif k == "back":
+            rs[-1] = rs[-1] - e[1]
+        elif k == "write_bit":
+            events.append(("write_bit", [e[1], ws[-1]]))
+            ws[-1] = ws[-1] + 1
+        elif k == "copy":
+            events.append(("copy", [e[1], rs[-1], ws[-1]]))
+            ws[-1] = ws[-1] + e[1]
+        elif k == "write_bytes":
+            events.append(("write_bytes:" + repr(e[1]), [ws[-1]]))
+            ws[-1] = ws[-1] + 256          # only ever the 32-byte CMR of disconnect's right child
+        elif k == "write_value":
+            events.append(("write_value:" + repr(e[1]), [ws[-1]]))
+        elif k == "write_u8":
+            events.append(("write_u8", [e[1], ws[-1]]))
+            ws[-1] = ws[-1] + 8
+        elif k == "peek":
+            events.append(("peek", [rs[-1]]))
+        elif k == "new_write_frame":
+            events.append(("new_write_frame", [e[1]]))
+            ws.append(C(0))
+        elif k == "move_write_frame_to_read":
+            events.append(("move_write_frame_to_read", []))
+            if len(ws) < 2:
+                raise Unsupported("an arm moves a write frame it did not allocate")
+            ws.pop()
+            rs.append(C(0))
+        elif k == "drop_read_frame":
+            events.append(("drop_read_frame", []))
+            if len(rs) < 2:
+                raise Unsupported("an arm drops a read frame it did not create")
+            rs.pop()
+        elif k == "push":
+            v, pl = _cs(e[1])
+            if v == "Back" and stack and stack[-1][0] == "push:Back":
+                stack[-1] = ("push:Back", [stack[-1][1][0] + pl])
+            elif v in ("Back", "CopyFwd"):
+                stack.append(("push:" + v, [pl]))
+            elif v == "Goto":
+                stack.append(("push:Goto:" + (pl.data["name"] if isinstance(pl, Opaque) else repr(pl)), []))
+            else:
+                stack.append(("push:" + v, []))
         else:
-            s.append(e[0])
-    return s
+            raise Unsupported("micro-operation %r" % (k,))
+    # a Back by a syntactic zero is no entry
+    stack = [x for x in stack if not (x[0] == "push:Back" and z3.is_bv_value(z3.simplify(x[1][0])) and z3.simplify(x[1][0]).as_long() == 0)]
+    return events + stack + [("final read cursors", rs), ("final write cursors", ws)]
 
 
-def args_differ(trace, ref):
-    """disjunction: some argument of the trace differs from the reference's"""
+def shape(summary):
+    return [(k, len(a)) for (k, a) in summary]
+
+
+def args_differ(got, ref):
     d = []
-    for e, r in zip(trace, ref):
-        if e[0] == "push":
-            (v, p), (rv, rp) = _cs(e[1]), _cs(r[1])
-            if v in ("Back", "CopyFwd"):
-                d.append(p != rp)
-        elif e[0] in ("copy", "skip", "fwd", "back", "new_write_frame"):
-            d.append(e[1] != r[1])
-        elif e[0] == "write_bit":
-            a, b = e[1], r[1]
-            d.append(z3.Xor(a, b) if z3.is_bool(a) else a != b)
-        elif e[0] == "peek":
-            pass
+    for (k, a), (rk, ra) in zip(got, ref):
+        for x, y in zip(a, ra):
+            if z3.is_bool(x) or z3.is_bool(y):
+                d.append(z3.Xor(x, y))
+            else:
+                d.append(x != y)
     return z3.Or(d) if d else z3.BoolVal(False)
 
 
@@ -305,8 +335,8 @@ def cases():
     s_ = node("left", fin("AxC", a + c, "product", A, Cc), D)
     t = node("right", fin("BxC", b + c, "product", B, Cc), D)
     padl, padr = mx(a, b) - a, mx(a, b) - b
-    left_ref = [("peek", None), ("fwd", 1 + padl), backp(1 + padl), goto(s_)]
-    right_ref = [("peek", None), ("fwd", 1 + padr), backp(1 + padr), goto(t)]
+    left_ref = [("peek",), ("fwd", 1 + padl), backp(1 + padl), goto(s_)]
+    right_ref = [("peek",), ("fwd", 1 + padr), backp(1 + padr), goto(t)]
     out.append(("Case", node("ip", src, D), [s_, t], small, {False: left_ref, True: right_ref}, vs))
     out.append(("AssertL", node("ip", src, D), [s_, Opaque("cmr")], small, {False: left_ref, True: "err"}, vs))
     out.append(("AssertR", node("ip", src, D), [Opaque("cmr"), t], small, {False: "err", True: right_ref}, vs))
@@ -357,10 +387,20 @@ def run(funcs, repo, sol, log, section, problems_out):
                     if k == "ret":
                         bad.append(cc)       # returns where the semantics continue
                         continue
-                    got = normalise(tr)
-                    ref_n = [e for e in ref]
-                    if shape(got) != shape([_fill(e, g) for e, g in zip(ref_n, got)] if len(got) == len(ref_n) else ref_n):
-                        raise Unsupported("the %s arm issues %r where the reference sequence is %r: not comparable by this encoding"
+                    payloads = [e[1] for e in tr if e[0] in ("write_bytes", "write_value")]
+                    ref_f = []
+                    for e in ref:
+                        if e[0] in ("write_bytes", "write_value") and e[1] is None and payloads:
+                            e = (e[0], payloads.pop(0))     # which bytes / value: checked by name below
+                        ref_f.append(e)
+                    for e in tr:
+                        if e[0] == "write_bytes" and not ("cmr_of" in repr(e[1]) and "right" in repr(e[1])):
+                            bad.append(cc)   # disconnect must pass the CMR of its right child
+                        if e[0] == "write_value" and not (("witness_value" in repr(e[1])) if variant == "Witness" else ("value_of_word" in repr(e[1]))):
+                            bad.append(cc)
+                    got, ref_n = summarise(tr), summarise(ref_f)
+                    if shape(got) != shape(ref_n):
+                        raise Unsupported("the %s arm has the effect %r where the reference has %r: not comparable by this encoding"
                                           % (variant, shape(got), shape(ref_n)))
                     bad.append(z3.And(cc, args_differ(got, ref_n)))
             if n_paths == 0:
@@ -380,8 +420,70 @@ def run(funcs, repo, sol, log, section, problems_out):
     return arms, explored
 
 
-def _fill(ref_e, got_e):
-    """reference entries with a don't-care payload take the shape of what was issued"""
-    if ref_e[0] in ("write_bytes", "write_value") and ref_e[1] is None:
-        return (ref_e[0], got_e[1]) if got_e[0] == ref_e[0] else ref_e
-    return ref_e
+def check(log, tier):
+    """Engine M part of the C05 check. Returns (exit_code, evidence dict, replay paths)."""
+    import json
+    import time
+    from . import mircheck
+    t0 = time.time()
+    del mircheck.UNEXPLORED[:]
+    info = {"engine": "MIR -> SMT (z3 5.1.0 + cvc5 1.0.3 must agree), region execution of exec_with_tracker's dispatch",
+            "functions_encoded": [], "queries": [], "unexplored": []}
+    try:
+        mir, dump_s = mircheck.dump_mir()
+        log("[C05] MIR of the working tree dumped in %.1fs" % dump_s)
+        funcs = M.parse_mir(mir)
+        sol = mircheck.Solver2(log, timeout_s=120)
+        with mircheck.section("A. interpreter arms (all)", log):
+            arms, explored = run(funcs, mircheck.REPO, sol, log, mircheck.section, [])
+            info["functions_encoded"] = ["BitMachine::exec_with_tracker (dispatch region: one step per combinator: %s)" % ", ".join(explored)] + \
+                [n for n in arms.mach.encoded if "exec_with_tracker" not in n]
+            info["models"] = sorted(set(arms.mach.modelled))
+        done = sol.run_all()
+    except Unsupported as e:
+        log("[C05] interpreter arms: cannot be encoded on this tree: %s" % e)
+        info["unexplored"].append({"obligations": "A. interpreter arms", "reason": str(e)[:300]})
+        print("UNEXPLORED: property=C05 obligations='A. interpreter arms (all)' reason=%s" % str(e)[:300])
+        return 0, info, []
+    for (sec, why) in mircheck.UNEXPLORED:
+        print("UNEXPLORED: property=C05 obligations=%r reason=%s" % (sec, why))
+        info["unexplored"].append({"obligations": sec, "reason": why})
+    exit_code, replays = 0, []
+    for q in sol.queries:
+        info["queries"].append({k: q.get(k) for k in ("name", "verdict", "z3", "cvc5", "z3_s", "cvc5_s", "model") if k in q})
+    info["solver_time_s"] = round(sol.solver_s, 2)
+    violated = [q for q in sol.queries if q["verdict"] == "violated"]
+    incon = [q for q in sol.queries if q["verdict"] not in ("holds", "violated")]
+    # the native family: the same programs run by the real Bit Machine and by an independent
+    # big-step evaluator. It validates the reference sequences on every run and reproduces solver
+    # counterexamples before they are reported.
+    fam = mircheck.replay_c07_family("arms_family", log, lambda j: not j.get("agree", False))
+    info["native_family"] = "agrees on every program" if fam is not True else "DISAGREES (see log)"
+    if violated:
+        d = mircheck.replays_dir("C05")
+        for q in violated:
+            path = os.path.join(d, re.sub(r"[^\w.-]", "_", q["name"])[:80] + ".json")
+            with open(path, "w") as f:
+                json.dump({"property": "C05", "query": q["name"], "model": q.get("model"),
+                           "replay": "vreplay arms_family (programs run by the real Bit Machine vs. big-step semantics)",
+                           "reproduced": fam is True}, f, indent=1)
+            if fam is True:
+                print("VIOLATION property=C05 replay=%s" % path)
+                print("  %s :: model %s" % (q["name"], q.get("model")))
+                replays.append(path)
+                exit_code = 1
+            else:
+                print("NON-REPRODUCING counterexample property=C05 query=%r: the native program family agrees with the semantics" % q["name"])
+                exit_code = max(exit_code, 2) if exit_code != 1 else 1
+    elif fam is True:
+        log("[C05] INCONCLUSIVE: the native program family disagrees with the big-step semantics although no arm obligation is violated")
+        exit_code = 2
+    for q in incon:
+        log("[C05] INCONCLUSIVE query %s: z3=%s cvc5=%s" % (q["name"], q.get("z3"), q.get("cvc5")))
+        if exit_code == 0:
+            exit_code = 2
+    info["wall_s"] = round(time.time() - t0, 1)
+    log("[C05] interpreter arms: %d queries, %d hold, %d violated, %d inconclusive, %d group(s) unexplored (%.0fs)" % (
+        len(sol.queries), len([q for q in sol.queries if q["verdict"] == "holds"]), len(violated), len(incon),
+        len(info["unexplored"]), time.time() - t0))
+    return exit_code, info, replays
